@@ -218,7 +218,7 @@ def util(ctx):
     ev.np_override = {'numpy.gcd.reduce': gcd_reduce}
     x = arr([g * v for v in pq])
     r = _ret(ev.run_fn(ctx.fn(MIL, 'reduce_indices'), [x], {}))
-    ok = r is not None and len(calls) == 1 and calls[0][1] == -1 and all(sp.simplify(a - b) == 0 for a, b in zip(list(r), pq))
+    ok = r is not None and len(calls) == 1 and calls[0][1] in (-1, np.ndim(calls[0][0]) - 1) and all(sp.simplify(a - b) == 0 for a, b in zip(list(r), pq))
     ctx.ob('UTIL', loc + 'reduce_indices', 'indices are divided by their greatest common divisor taken along the last axis', bool(ok), 'got %s' % (None if r is None else list(r),), node=ctx.fn(MIL, 'reduce_indices'))
     # concrete batches (3 and 4 indices): the divisor is the gcd of *all* indices of each vector
     import math
